@@ -2083,3 +2083,47 @@ func (P *Program) cellOfParam(v ssa.Value) *ssa.Parameter {
 	}
 	return prm
 }
+
+// ruleTypeModelKey (C05, tenth round): the model of an annotated type is filed under the name the annotation is
+// attached to - the name under which the type was picked from the set of annotated names (`wanted[name]`) - because
+// FindMissingMethods asks for it under ann.OnType. A model named after the type the declaration *denotes*
+// (named.Obj().Name()) is lost for an annotated alias declaration: a wrong claim on it is never checked.
+func (c *Ctx) ruleTypeModelKey() {
+	P := c.P
+	n := 0
+	for _, fn := range P.ModFuncs {
+		if funcPkgPath(fn) != modulePath+"/src/implements" {
+			continue
+		}
+		allInstrs(fn, func(b *ssa.BasicBlock, ins ssa.Instruction) {
+			st, ok := ins.(*ssa.Store)
+			if !ok {
+				return
+			}
+			fa, ok := st.Addr.(*ssa.FieldAddr)
+			if !ok || typeStr(deref(fa.X.Type())) != "implements.TypeModel" || fieldName(deref(fa.X.Type()), fa.Field) != "Name" {
+				return
+			}
+			n++
+			d := P.Desc(st.Val)
+			picked := ""
+			for _, l := range P.BlockGuards(b) {
+				lk := lookupOK(l)
+				if lk == nil && l.Kind == "cond" && l.Val != nil {
+					lk, _ = l.Val.(*ssa.Lookup) // wanted[name] on a map[string]bool
+				}
+				if lk != nil && l.Pos {
+					if mt, isM := lk.X.Type().Underlying().(*types.Map); isM && typeStr(mt.Key()) == "string" {
+						picked = P.Desc(lk.Index)
+						if picked == d {
+							break
+						}
+					}
+				}
+			}
+			c.check(picked != "" && picked == d, "TYPE-MODEL/KEY", FuncName(fn), P.Pos(st.Pos()), "the model is named by the annotated name it was picked under",
+				"the type model is not filed under the annotated name it was picked by (named "+short(d)+", picked under "+short(picked)+"): FindMissingMethods looks it up under ann.OnType - an @implements on an alias declaration is never checked")
+		})
+	}
+	c.floor("TypeModel literals", n, 1)
+}
